@@ -146,3 +146,15 @@ Definition p_arg_then_reassign : list op :=
    OCallBegin; ORead 0;
      OCallBegin; OCallBind []; OPushScope; OLit b_cc; OLit b_dd; OConcat; OAssign 0; OLit [33%Z]; OPopScope; OCallEnd;
    OCallBind [1; 2]; OPushScope; ORead 1; OShout; OPopScope; OCallEnd; ODrop].
+
+(* a stored record (persistent Vec of strings: what a process builder is, storage-wise) one of whose strings
+   was built in the frame arena INSIDE the running loop iteration (mark 0): the state a mutator leaves behind
+   when it keeps the frame copy of a computed string instead of building a persistent one *)
+Definition st_frame_string_in_record : mstate :=
+  mkSt (mkHeap [] [OVec 0] [OBytes b_aa] [] [] 1)
+       [[(0, MArr RPers 0 0 1 [MOwned RFrame 0 2 2])]] [] [] [mkCtl true 0 [] 1].
+Definition observe_from_ok (st : mstate) (ops : list op) : bool :=
+  match run cfg_repaired st ops with
+  | MOk st' => forallb (fun v => match erase (m_heap st') v with Some _ => true | None => false end) (m_out st')
+  | _ => false
+  end.
